@@ -305,6 +305,11 @@ func (f *File) Write(b []byte) (n int, err error) {
 		}
 	}
 	n = len(b)
+	if n == 0 {
+		// like write(2), writing nothing changes nothing: in particular it must not
+		// extend the file up to the current offset
+		return 0, nil
+	}
 	cur := atomic.LoadInt64(&f.at)
 	f.fileData.Lock()
 	defer f.fileData.Unlock()
